@@ -713,9 +713,14 @@ def c15_units():
     return [ThreadWrapper()]
 
 
-def units(tier):
+def _own_units(tier):
     from . import c11
     rl = c11.RunLoop()
     # exceptions of the reader / the reactions must reach run() unchanged, where they are routed
     rl.prop, rl.name = 'C14', 'C14.run-loop.propagates'
     return [RegisterHandler(), HandlerDecorator(), Chain(), ChainUnrolled(), ThreadWrapper(), rl, ExceptionClasses()]
+
+
+def units(tier):
+    from .deps import dependency_units
+    return _own_units(tier) + dependency_units('C14')
